@@ -89,7 +89,20 @@ FAULT = {
     'C18': dict(mode='crash', quick=dict(kinds=['crash']), thorough=dict(kinds=['crash'])),
 }
 
-LEVEL = {p: 'model_checking' for p in list(SEQ) + list(CONCUR)}
+CAND = {
+    'C02': dict(quick=dict(states=48, nq=8, claims=6), thorough=dict(states=900, nq=20, claims=12)),
+    'C03': dict(quick=dict(states=60, nq=25), thorough=dict(states=1500, nq=40)),
+    'C13': dict(quick=dict(states=48, nq=40), thorough=dict(states=800, nq=80)),
+    'C20': dict(quick=dict(states=36, nq=5, maxlimit=5, reps=1), thorough=dict(states=400, nq=8, maxlimit=12, reps=3)),
+}
+CAND_MON = {
+    'C02': ('C02_',),
+    'C03': ('C03_',),
+    'C13': ('C13_',),
+    'C20': ('C20_',),
+}
+
+LEVEL = {p: 'model_checking' for p in list(SEQ) + list(CONCUR) + list(CAND)}
 LEVEL.update({p: 'fault_enumeration' for p in FAULT})
 
 RULES = {
@@ -472,7 +485,87 @@ def run_fault(prop, tier, seed, model=True):
         'the enumeration is exhaustive over the statement indices of the corpus requests (single faults), not over all requests or fault sequences'])
 
 
+def run_cand(prop, tier, seed, model=True):
+    import multiprocessing as mp
+    from pv import cand
+    t0 = time.time()
+    cfg = CAND[prop][tier]
+    rnd = random.Random(seed * 31337 + 7)
+    seeds = [rnd.randrange(1 << 30) for _ in range(cfg['states'])]
+    nw = 12 if tier == 'quick' else 14
+    jobs = []
+    for w in range(nw):
+        ss = seeds[w::nw]
+        if ss:
+            j = dict(cfg)
+            j.update({'mode': prop, 'seeds': ss})
+            jobs.append(j)
+    models = []
+    if model:
+        models.append(run_cand_model(prop, tier))
+    ctx = mp.get_context('spawn')
+    try:
+        with ctx.Pool(len(jobs)) as pool:
+            results = pool.map(cand.worker, jobs, chunksize=1)
+    except tlc.TLCError as ex:
+        raise Machinery(str(ex))
+    n = sum(r['n'] for r in results)
+    if n == 0:
+        raise Machinery('no query was validated')
+    violations, known = [], []
+    keys = set()
+    hist = {}
+    for r in results:
+        keys.update(r['keys'])
+        for k, v in r['hist'].items():
+            hist[k] = hist.get(k, 0) + v
+        for bad in r['bad']:
+            mons = [m for m in bad['monitors'] if m.startswith(CAND_MON[prop])]
+            if not mons:
+                continue
+            sig = {'engine': 'cand', 'kind': bad['kind'], 'monitors': ','.join(mons),
+                   'status': bad['status'], 'tag': bad['tag']}
+            f = findings.lookup(prop, sig)
+            why = '%s: %s -> %s' % (','.join(mons), bad['path'], bad['status'])
+            if f:
+                known.append((f, why))
+            else:
+                violations.append((bad, why, sig))
+    cov = {
+        'states': sum(m['states'] for m in models),
+        'transitions': sum(m['transitions'] for m in models),
+        'models': models,
+        'traces_validated_against_impl': n,
+        'evaluations': n + sum(r['claims'] for r in results),
+        'claims_replayed': sum(r['claims'] for r in results),
+        'database_states': sum(r['states'] for r in results),
+        'distinct_nontrivial': len(keys),
+        'rule': 'one case = one (database state, query) pair whose response TLC compared with the declarative reference; distinct non-trivial = distinct (query, state) pairs with a non-empty result',
+        'responses_strictly_between_must_and_may': sum(r['between'] for r in results),
+        'histogram': dict(sorted(hist.items())),
+        'samples': results[0]['sample'],
+        'exhaustive': False,
+    }
+    if not model:
+        cov.pop('states')
+        cov.pop('transitions')
+    return finish(prop, tier, seed, cov, violations, known, t0, [
+        'database states are random forests within the scope of C03 (<= 7 providers, <= 3 trees of depth <= 3, 4 classes, 4 traits incl. the sharing trait, 3 aggregates) built through the API; queries are generated, not enumerated',
+        'the reference is the envelope CandMust <= observed <= CandMay of spec/Candidates.tla; the corners where the two differ are listed in the module and in DESIGN.md',
+        'allocation ratios are dyadic'])
+
+
+def run_cand_model(prop, tier):
+    rc, out, wall = tlc.run('MC_Cand', 'MC_Cand.cfg', workers=16, timeout=3000, jvm=['-Xmx8g'])
+    gen, dist = tlc.stats(out)
+    if 'Model checking completed. No error has been found' not in out:
+        raise Machinery('TLC model MC_Cand did not complete cleanly:\n' + out[-2500:])
+    return {'model': 'MC_Cand.cfg', 'transitions': gen, 'states': dist, 'wall_s': round(wall, 1)}
+
+
 def run_check(prop, tier, seed, model=True):
+    if prop in CAND:
+        return run_cand(prop, tier, seed, model=model)
     if prop in FAULT:
         return run_fault(prop, tier, seed, model=model)
     if prop in SEQ:
